@@ -40,6 +40,8 @@ const (
 	REQUEST_BODY_SIZE_LIMIT = 2 * 1024 * 1024
 
 	ACTIVE_KEYSET = "active_keyset_key"
+	// prefix for cache entries of GET /v1/keys/{id}
+	KEYSET_CACHE_PREFIX = "keyset:"
 	// 1 day
 	KEYSET_TTL = 60 * 60 * 24
 )
@@ -307,7 +309,9 @@ func (ms *MintServer) getKeysetById(rw http.ResponseWriter, req *http.Request) {
 	vars := mux.Vars(req)
 	id := vars["id"]
 
-	keysetResponse, found := ms.cache.Get(id)
+	// keysets are cached in a key space of their own: ids come from the URL and must not be able
+	// to name other cache entries (the active keyset entry, cached swap/mint responses)
+	keysetResponse, found := ms.cache.Get(KEYSET_CACHE_PREFIX + id)
 	if found {
 		ms.logRequest(req, http.StatusOK, "returning keyset with id: %v from cache", id)
 		rw.Write(keysetResponse)
@@ -326,7 +330,7 @@ func (ms *MintServer) getKeysetById(rw http.ResponseWriter, req *http.Request) {
 		return
 	}
 
-	ms.cache.Set(id, jsonRes, time.Second*KEYSET_TTL)
+	ms.cache.Set(KEYSET_CACHE_PREFIX+id, jsonRes, time.Second*KEYSET_TTL)
 
 	ms.logRequest(req, http.StatusOK, "returning keyset with id: %v", id)
 	rw.Write(jsonRes)
